@@ -168,6 +168,11 @@ pub fn check(scn: &Scenario, c: &mut Counters) -> Verdict {
         Err(e) => return Verdict::harness(e),
     };
     c.absorb_run(&out);
+    if out.lost_wakeup.is_some() || out.budget_exhausted {
+        // liveness under schedules is C12's business
+        c.bump("skipped.liveness");
+        return Verdict::skip("evaluation did not finish under this schedule (C12)".into());
+    }
     let n = scn.rules.len();
     let spec = &scn.inputs[scn.tasks[0].input];
     let got = match finished_outcomes(&out.ends[0]) {
